@@ -364,7 +364,35 @@ fn session_main(args: &Args) {
                 let c = &names[2];
                 // filler statements move the labels to different lines in every source
                 let pad = |rng: &mut Rng| filler(rng.below(4) as usize, rng);
-                let mut item = match rng.below(12) {
+                let mut item = match rng.below(20) {
+                    // free form: any subset of the shared names defined at random lines, references to any of them from random
+                    // lines - backward, forward, to itself, or to a name this source does not define
+                    12..=19 => {
+                        let k = 2 + rng.below(6) as usize;
+                        let mut v: Vec<Item> = (0..k).map(|_| add_i(rng.below(8) as i64, 0, 1)).collect();
+                        for _ in 0..1 + rng.below(3) {
+                            let at = rng.below(k as u64) as usize;
+                            let name = rng.pick(&names).clone();
+                            let labs = v[at].labs.clone();
+                            let mut it = match rng.below(4) {
+                                0 => pc_lab("ld", rng.below(8) as i64, &name),
+                                1 => pc_lab("lea", rng.below(8) as i64, &name),
+                                2 => br_lab(rng.range(1, 7), &name),
+                                _ => pc_lab("jsr", 0, &name),
+                            };
+                            it.labs = labs;
+                            v[at] = it;
+                        }
+                        for name in names.iter() {
+                            if rng.chance(2, 3) {
+                                let at = rng.below(k as u64) as usize;
+                                if v[at].labs.is_empty() {
+                                    v[at].labs.push(name.clone());
+                                }
+                            }
+                        }
+                        (v, None)
+                    }
                     // many labels (a table that has grown)
                     9 => {
                         let mut v = Vec::new();
